@@ -96,3 +96,11 @@ func VerifSessionPIDs(a Adapter) []string {
 	sort.Strings(out)
 	return out
 }
+
+// VerifInnerAdapter returns the in-memory adapter embedded in a session-aware one (its hook object).
+func VerifInnerAdapter(a Adapter) any {
+	if sa, ok := a.(*sessionAwareAdapter); ok {
+		return sa.inMemoryAdapter
+	}
+	return a
+}
